@@ -940,9 +940,262 @@ func cbkConcurrentSame(r *h.Report, base int, rounds int) {
 	r.Info["concurrent-same"] = fmt.Sprintf("%d rounds of %d pairs of goroutines registering one function for each of %d counters at the same moment: one accepted per counter, one invocation per sampled counter", rounds, groups, k)
 }
 
+const cbkReentryKey = "C14/callback-reentry-blocks-delivery"
+
+// the re-entering callback: a function literal of its own (a fourth code pointer)
+func cbkMkReent(l *cbkLog, reg int, act func()) func(api.ResponseMessage) {
+	return func(m api.ResponseMessage) { l.add(reg, false, m); act(); _ = 4 }
+}
+
+// cbkWithin: done closes within `bound` of KEPT time (h.Kept: the time the reference goroutine of this process has
+// witnessed - a stall of the whole process does not count, so the other goroutines had a fair chance).
+func cbkWithin(done <-chan struct{}, bound time.Duration) bool {
+	t0 := time.Now()
+	for {
+		select {
+		case <-done:
+			return true
+		case <-time.After(time.Millisecond):
+		}
+		if h.Kept(t0) >= bound {
+			select {
+			case <-done:
+				return true
+			default:
+				return false
+			}
+		}
+	}
+}
+
+// cbkReentry (round 5): WHERE the callbacks run. A callback may call back into the feature it was registered on -
+// the request chain: the callback of request 1 registers the callback of follow-up request 2 - so an invocation must
+// neither hold the registry mutex nor keep the message-processing goroutine from returning. Per case a fresh world;
+// 1 or 3 callbacks wait for one counter, the first of them re-enters the feature (registers a follow-up callback
+// for the next counter / adds a result callback / reads data / sets the approval timeout) or is slow (blocks until
+// released, while another goroutine registers a callback on the same feature); the arrival comes as reply, as result,
+// on a child feature and on node management. SPEC: HandleSpineMesssage returns and the concurrent registration
+// returns within a bound of kept time; every registration - the follow-up ones included - is invoked exactly once by
+// its own arrival. Returns false after a violation (a blocked goroutine stays behind: the baseline is gone).
+func cbkReentry(r *h.Report, base int, skips bool) bool {
+	type path struct {
+		name string
+		f    int
+		kind string
+	}
+	paths := []path{{"reply", 1, "reply"}, {"result", 1, "result0"}, {"reply-child-feature", 3, "reply"}, {"result-node-management", 0, "result1"}}
+	if !skips {
+		paths = append(paths, path{"reply-node-management", 0, "reply"})
+	}
+	actions := []string{"add-response-callback", "add-result-callback", "data-copy", "read-api", "set-approval-timeout", "slow"}
+	const bound = 2 * time.Second
+	for _, pa := range paths {
+		for _, n := range []int{1, 3} {
+			for _, action := range actions {
+				ops := []string{fmt.Sprintf("reentry path=%s callbacks-for-the-counter=%d first-callback=%s", pa.name, n, action)}
+				w := newCbkWorld(true)
+				cbkSettle(base)
+				w.log.take()
+				feat := w.feats[pa.f]
+				const c = 7
+				var entered, reentered int32
+				release := make(chan struct{})
+				act := func() {
+					atomic.StoreInt32(&entered, 1)
+					switch action {
+					case "add-response-callback":
+						_ = feat.AddResponseCallback(c+1, cbkMk2(w.log, 10))
+					case "add-result-callback":
+						feat.AddResultCallback(cbkMkRes(w.log, 11))
+					case "data-copy":
+						_ = feat.DataCopy(model.FunctionTypeLoadControlLimitListData)
+					case "read-api":
+						_, _, _ = feat.Functions(), feat.Description(), feat.Operations()
+					case "set-approval-timeout":
+						feat.SetWriteApprovalTimeout(time.Second)
+					case "slow":
+						<-release
+					}
+					atomic.StoreInt32(&reentered, 1)
+				}
+				mks := []func(api.ResponseMessage){cbkMkReent(w.log, 0, act), cbkMk2(w.log, 1), cbkMk3(w.log, 2)}
+				for i := 0; i < n; i++ {
+					if err := feat.AddResponseCallback(c, mks[i]); err != nil {
+						r.SpecFail("C14/distinct-callback-refused", ops, fmt.Sprintf("registration %d refused: %v", i, err))
+						return false
+					}
+				}
+				arrive := func(kind string, ref int, arrival int) chan struct{} {
+					done := make(chan struct{})
+					w.ctr++
+					ctr := w.ctr
+					go func() {
+						defer close(done)
+						cl, cmd, _ := cbkPayload(pa.f, kind, arrival, 1)
+						w.send(1, pa.f, cl, ctr, util.Ptr(model.MsgCounterType(ref)), cbkSrc(1, pa.f), cmd)
+					}()
+					return done
+				}
+				done := arrive(pa.kind, c, 800)
+				if action == "slow" {
+					// wait (bounded) until the callback runs, then register from another goroutine
+					t0 := time.Now()
+					for atomic.LoadInt32(&entered) == 0 && h.Kept(t0) < bound {
+						time.Sleep(200 * time.Microsecond)
+					}
+					if atomic.LoadInt32(&entered) == 0 {
+						close(release)
+						r.SpecFail("C14/callback-not-invoked", ops, "the callback was not invoked by the arrival referencing its counter")
+						return false
+					}
+					regDone := make(chan struct{})
+					go func() {
+						defer close(regDone)
+						_ = feat.AddResponseCallback(c+2, cbkMk3(w.log, 12))
+					}()
+					ok := cbkWithin(regDone, bound)
+					close(release)
+					if !ok {
+						r.SpecFail("C14/running-callback-blocks-registration", ops, fmt.Sprintf("while a callback invoked for counter %d was still running, AddResponseCallback for counter %d on the same feature from another goroutine did not return within %v of kept time: the callback runs inside the registry's critical section", c, c+2, bound))
+						return false
+					}
+				}
+				if !cbkWithin(done, bound) {
+					r.SpecFail(cbkReentryKey, ops, fmt.Sprintf("HandleSpineMesssage of the %s referencing counter %d did not return within %v of kept time (callback entered=%v, its call back into the feature returned=%v): the callback is invoked on the message-processing goroutine while the registry mutex is held, so a callback that registers the follow-up callback (the request chain) blocks delivery for ever", pa.kind, c, bound, atomic.LoadInt32(&entered) == 1, atomic.LoadInt32(&reentered) == 1))
+					return false
+				}
+				t0 := time.Now()
+				for atomic.LoadInt32(&reentered) == 0 && h.Kept(t0) < bound {
+					time.Sleep(200 * time.Microsecond)
+				}
+				if !cbkSettle(base) || atomic.LoadInt32(&reentered) == 0 {
+					r.SpecFail(cbkReentryKey, ops, fmt.Sprintf("the callback's call back into the feature did not return (entered=%v)", atomic.LoadInt32(&entered) == 1))
+					return false
+				}
+				// the follow-up arrival
+				want := map[int][2]int{} // registration -> (reference, arrival) it must be invoked with
+				for i := 0; i < n; i++ {
+					want[i] = [2]int{c, 800}
+				}
+				var d2 chan struct{}
+				switch action {
+				case "add-response-callback":
+					d2 = arrive(pa.kind, c+1, 801)
+					want[10] = [2]int{c + 1, 801}
+				case "add-result-callback":
+					d2 = arrive("result0", 99, 802)
+					want[11] = [2]int{99, 802}
+				case "slow":
+					d2 = arrive(pa.kind, c+2, 803)
+					want[12] = [2]int{c + 2, 803}
+				}
+				if d2 != nil && !cbkWithin(d2, bound) {
+					r.SpecFail(cbkReentryKey, ops, "HandleSpineMesssage of the follow-up arrival did not return")
+					return false
+				}
+				if !cbkSettle(base) {
+					r.SpecFail("C14/callback-blocked", ops, "callbacks did not return")
+					return false
+				}
+				count := map[int]int{}
+				for _, x := range w.log.take() {
+					wa, known := want[x.reg]
+					if x.reg == 11 && strings.HasPrefix(pa.kind, "result") && cbkDataNum(x.msg.Data) == 800 {
+						continue // the result callback added while the result message was being delivered may see that message's own result section
+					}
+					count[x.reg]++
+					if !known || int(x.msg.MsgCounterReference) != wa[0] || cbkDataNum(x.msg.Data) != wa[1] {
+						r.SpecFail("C14/callback-invoked-for-other-message", ops, fmt.Sprintf("registration %d invoked with reference %d and data of arrival %d, expected %v", x.reg, x.msg.MsgCounterReference, cbkDataNum(x.msg.Data), wa))
+						return false
+					}
+				}
+				for id := range want {
+					switch {
+					case count[id] == 0:
+						r.SpecFail("C14/callback-not-invoked", ops, fmt.Sprintf("registration %d (0..2: the callbacks of the counter, 10: follow-up response callback registered from inside the callback, 11: result callback added from inside, 12: registered while the callback ran) never invoked by its arrival", id))
+						return false
+					case count[id] > 1:
+						r.SpecFail("C14/callback-invoked-twice", ops, fmt.Sprintf("registration %d invoked %d times", id, count[id]))
+						return false
+					}
+				}
+				w.close()
+				cbkSettle(base)
+				r.Eval("reentry-case", "")
+				r.Dist["reentry:"+action]++
+			}
+		}
+	}
+	// a RESULT callback that re-enters: it registers a response callback for the follow-up request
+	for _, f := range []int{1, 0} {
+		ops := []string{fmt.Sprintf("reentry result-callback of feature %d registers a response callback, then a result and the follow-up arrival", f)}
+		w := newCbkWorld(true)
+		cbkSettle(base)
+		w.log.take()
+		feat := w.feats[f]
+		var once int32
+		feat.AddResultCallback(func(m api.ResponseMessage) {
+			w.log.add(20, true, m)
+			if atomic.AddInt32(&once, 1) == 1 {
+				_ = feat.AddResponseCallback(31, cbkMk2(w.log, 10))
+				_, _, _ = feat.Functions(), feat.Description(), feat.DataCopy(model.FunctionTypeLoadControlLimitListData)
+			}
+		})
+		for i, a := range []struct {
+			kind string
+			ref  int
+		}{{"result0", 30}, {"result1", 31}} {
+			done := make(chan struct{})
+			w.ctr++
+			ctr, a, arrival := w.ctr, a, 810+i
+			go func() {
+				defer close(done)
+				cl, cmd, _ := cbkPayload(f, a.kind, arrival, 1)
+				w.send(1, f, cl, ctr, util.Ptr(model.MsgCounterType(a.ref)), cbkSrc(1, f), cmd)
+			}()
+			if !cbkWithin(done, bound) {
+				r.SpecFail(cbkReentryKey, ops, fmt.Sprintf("HandleSpineMesssage of result %d (reference %d) did not return within %v of kept time: a result callback is invoked on the message-processing goroutine while a mutex of the feature that the callback needs (registry mutex, data or description mutex) is held", i+1, a.ref, bound))
+				return false
+			}
+			if !cbkSettle(base) {
+				r.SpecFail(cbkReentryKey, ops, "the result callback's call back into the feature did not return")
+				return false
+			}
+		}
+		nRes, nFollow := 0, 0
+		for _, x := range w.log.take() {
+			switch x.reg {
+			case 20:
+				nRes++
+			case 10:
+				nFollow++
+				if int(x.msg.MsgCounterReference) != 31 || cbkDataNum(x.msg.Data) != 811 {
+					r.SpecFail("C14/callback-invoked-for-other-message", ops, fmt.Sprintf("follow-up callback invoked with reference %d, data of arrival %d", x.msg.MsgCounterReference, cbkDataNum(x.msg.Data)))
+					return false
+				}
+			}
+		}
+		if nRes != 2 {
+			r.SpecFail("C14/result-callback-count", ops, fmt.Sprintf("two results referencing requests: the result callback was invoked %d times", nRes))
+			return false
+		}
+		if nFollow != 1 {
+			r.SpecFail("C14/callback-not-invoked", ops, fmt.Sprintf("the response callback registered from inside the result callback for counter 31 was invoked %d times by the result referencing 31", nFollow))
+			return false
+		}
+		w.close()
+		cbkSettle(base)
+		r.Eval("reentry-case", "")
+		r.Dist["reentry:result-callback-reenters"]++
+	}
+	r.Info["reentry"] = fmt.Sprintf("%d paths x {1,3} callbacks per counter x %d behaviours of the first callback (re-entering the feature / slow with a concurrent registration): delivery returned, every registration invoked exactly once", len(paths), len(actions))
+	return true
+}
+
 func TestCallbacks(t *testing.T) {
 	r := h.NewReport("callbacks", "random histories of AddResponseCallback (3 function literals, 1-4 counters, node management + 6 client features on hierarchical local entities [1],[1,1],[2],[2,1] with repeated feature ids), AddResultCallback and inbound datagrams from two peers (full replies, replies with partial / partial+selector / delete filters merged into cached list data, discovery replies, results with and without error, rejected replies, replies without reference, notifies with reference, malformed results, unknown source) through HandleSpineMesssage, compared op by op with Spine.CB (registrations invoked by the arrival with the data and origin handed over); non-trivial = a history with a response-callback invocation, a refused registration and a result-callback invocation (distinct by op text). Concurrent registration rounds and the cross-peer observation: SPEC monitor only.")
 	defer r.Write()
+	h.JitterStart() // before the baseline: the reference goroutine of h.Kept stays
 	// warm-up: one world built and torn down, then the goroutine baseline at a quiescent point
 	newCbkWorld(true).close()
 	base := h.Baseline()
@@ -983,6 +1236,10 @@ func TestCallbacks(t *testing.T) {
 			cbkConcurrent(r, base, 0)
 			return
 		}
+		if len(ops) > 0 && strings.HasPrefix(ops[0], "reentry") {
+			cbkReentry(r, base, skips)
+			return
+		}
 		cbkRunHistory(r, d, ops, base, info)
 		return
 	}
@@ -1000,6 +1257,10 @@ func TestCallbacks(t *testing.T) {
 	}
 	for _, c := range corpus {
 		cbkRunHistory(r, d, c, base, info)
+	}
+	if !cbkReentry(r, base, skips) {
+		r.Info["rest"] = "skipped: a goroutine of the re-entry rounds is blocked for ever, the goroutine baseline is gone"
+		return
 	}
 	other, cp := cbkCrossPeer(r, base)
 	r.Info["cross-peer: invocations by a peer other than the one the request went to"] = other
